@@ -251,7 +251,7 @@ theorem sizeofType_sound (t r : Ty) (h : Types.sizeofType t = some r) : sizeofTy
       simp only [Bool.not_eq_true] at h1 h2
       simp [sizeofTypeName, h1, h2]
 
-theorem assign_sound (l r o : Operand) (h : assignType l r = some o) : assignLvalue l = true := by
+theorem assign_lvalue (l r o : Operand) (h : assignType l r = some o) : assignLvalue l = true := by
   unfold assignType at h
   split at h
   · rename_i hc; exact hc
@@ -319,6 +319,36 @@ theorem ptrAssign_sound (t : Ty) (e : Operand) (hx : voidVsFuncPtr t e.ty = fals
           · cases tb <;> simp_all [voidVsFuncPtr, Ty.isFunc]
         · simp [compat_spec _ _ hc]
       · cases h
+  · cases h
+
+theorem exprassign_sound (t : Ty) (e : Operand) (hx : voidVsFuncPtr t e.ty = false)
+    (h : exprassignOk t e = true) : simpleAssign t e = true := by
+  unfold exprassignOk at h
+  split at h
+  · simp only [Bool.or_eq_true] at h
+    rcases h with (h | h) | h
+    · have ht : (Ty.arith (.basic .bool)).isArith = true := rfl
+      simp [simpleAssign, ht, h]
+    · simp [simpleAssign, h]
+    · simp [simpleAssign, h]
+  · rename_i a _
+    have ht : (Ty.arith a).isArith = true := rfl
+    simp [simpleAssign, ht, h]
+  · have := ptrAssign_sound _ e hx h
+    simp [simpleAssign, this]
+  · simp [simpleAssign, h]
+  · simp [simpleAssign, Ty.isStructUnion, compat_spec _ _ h]
+  · simp [simpleAssign, Ty.isStructUnion, compat_spec _ _ h]
+  · cases h
+
+theorem assign_sound (l r o : Operand) (hx : voidVsFuncPtr l.ty r.ty = false) (h : assignType l r = some o) :
+    assignLvalue l = true ∧ simpleAssign l.ty r = true := by
+  refine ⟨assign_lvalue l r o h, ?_⟩
+  unfold assignType at h
+  split at h
+  · split at h
+    · rename_i hc; exact exprassign_sound _ _ hx hc
+    · cases h
   · cases h
 
 /-- operands after the conversions of 6.3.2.1p3-4: no array and no function type left -/
